@@ -310,5 +310,7 @@ def sorted_tests(suite_or_case, unpack_outer=False):
         raise ValueError(f"Duplicate test ids detected: {pformat(duplicates)}")
 
     tests = _flatten_tests(suite_or_case, unpack_outer=unpack_outer)
-    tests.sort()
+    # Sort on the ids only.  An empty custom suite has no id (None), which
+    # cannot be compared with the ids of the other entries.
+    tests.sort(key=lambda item: (item[0] is not None, item[0] or ""))
     return unittest.TestSuite([test for (sort_key, test) in tests])
